@@ -40,6 +40,7 @@ def run(prog, res):
   affine_rules.check_partials(prog, res)
   affine_rules.check_hyperplane(prog, res)
   affine_rules.check_partition(prog, res)
+  affine_rules.check_A4(prog, res)
   for q, name in ((LL + '.project_by_dykstra', 'lattice'),
                   ('pwl_calibration_lib.project_all_constraints', 'pwl')):
     fn = prog.function(q)
